@@ -569,9 +569,18 @@ parse_mip_page(vbi_decoder *vbi, cache_page *vtp,
 				    [(*subp_index % 13) * 3 + 1];
 		(*subp_index)++;
 
-		if ((subc = vbi_unham16p (raw)
-		     | (vbi_unham8 (raw[2]) << 8)) < 0)
-			return FALSE;
+		{
+			int subc_lo, subc_hi;
+
+			subc_lo = vbi_unham16p (raw);
+			subc_hi = vbi_unham8 (raw[2]);
+
+			/* Do not shift the negative error value. */
+			if ((subc_lo | subc_hi) < 0)
+				return FALSE;
+
+			subc = subc_lo | (subc_hi << 8);
+		}
 
 		if ((code & 15) == 1)
 			subc += 1 << 12;
